@@ -1,20 +1,30 @@
 #!/usr/bin/env python3
-"""Builds every driver and harness binary once (setup)."""
+"""Builds, for every accepted check, the Lean property modules, the model driver and the harness binary (setup)."""
 import os, sys
 sys.path.insert(0, os.path.dirname(os.path.abspath(__file__)))
 import vcheck
 from props import PROPS
+VERIF = vcheck.VERIF
+rf = os.path.join(VERIF, "lib", "ready.txt")
+ready = set(open(rf).read().split()) if os.path.exists(rf) else set(PROPS)
 ok = True
 done = set()
+targets = []
 for pid, c in PROPS.items():
-    if c["driver"] not in done:
-        rc, out = vcheck.run(["lake", "build", c["driver"]], cwd=vcheck.LEAN)
-        done.add(c["driver"])
-        if rc != 0:
-            print(out[-2000:]); ok = False
-    if c["harness"] not in done:
-        b, out = vcheck.build_harness(c["harness"])
-        done.add(c["harness"])
-        if b is None:
-            print(out[-2000:]); ok = False
+    if pid not in ready:
+        continue
+    for t in c["props"] + [c["driver"]]:
+        if t not in targets:
+            targets.append(t)
+rc, out = vcheck.run(["lake", "build"] + targets, cwd=vcheck.LEAN)
+if rc != 0:
+    print(out[-4000:]); ok = False
+for pid, c in PROPS.items():
+    if pid not in ready or c["harness"] in done:
+        continue
+    b, out = vcheck.build_harness(c["harness"])
+    done.add(c["harness"])
+    if b is None:
+        print(out[-2000:]); ok = False
+print("setup", "ok" if ok else "FAILED", "targets:", len(targets), "harnesses:", len(done))
 sys.exit(0 if ok else 1)
